@@ -6,6 +6,7 @@ import (
 	"sync/atomic"
 	"time"
 
+	"github.com/formancehq/ledger/internal/verifhook"
 	"github.com/formancehq/stack/libs/go-libs/collectionutils"
 	"github.com/formancehq/stack/libs/go-libs/logging"
 	"github.com/pkg/errors"
@@ -144,6 +145,7 @@ func (defaultLocker *DefaultLocker) Lock(ctx context.Context, accounts Accounts)
 	logger.Debugf("Lock not acquired, some accounts are already used, putting in queue")
 	defaultLocker.intents.Append(intent)
 	defaultLocker.mu.Unlock()
+	verifhook.Yield(ctx, "lock.queued")
 
 	select {
 	case <-ctx.Done():
